@@ -119,6 +119,21 @@ func Point(site string) {
 	t.park()
 }
 
+// Candidate counts one more occurrence of site for the calling thread and reports whether it is
+// still within the occurrence cap (i.e. whether a scheduling point should be taken here).
+func Candidate(site string) bool {
+	t := self()
+	if t == nil {
+		return false
+	}
+	if k := cur.capK; k > 0 {
+		n := t.occ[site] + 1
+		t.occ[site] = n
+		return n <= k
+	}
+	return true
+}
+
 // Block parks the calling thread until ready() holds (evaluated by the scheduler while no thread
 // runs). It is also a scheduling point. Used by the vsync shims.
 func Block(site string, ready func() bool) {
